@@ -27,6 +27,12 @@
 //	advl <ns>                                  advance the clock; attester triggers that become due stay parked
 //	fire <slot>                                the parked attester trigger of the slot proceeds (if due)
 //	head <slot> <root> <addr>                  HandleHeadEvent; output F<slot>@<root>/<addr>{defs} per FetchOnly call
+//	headrace <nval> <k>                        self-contained (own scheduler, FetchAttOnBlock on, run in a CHILD process: a
+//	                                           Go "fatal error" cannot be recovered): the first slot of headraceEpochs epochs is
+//	                                           handled (each resolves its epoch: nval validators attesting in its slots) while
+//	                                           k goroutines deliver head events for the slots of the epoch being resolved.
+//	                                           Output "ok" whatever the interleaving; a child killed by the runtime's
+//	                                           concurrent-map check is the violation sched:head_event_races_resolve_fatal
 //	getdef <slot> <type>                       GetDutyDefinition
 //	probe <slot> <type> [<k>]                  GetDutyDefinition is called from inside the (k+1)-th attester-duties call from now
 //	                                           (while resolveDuties runs); its outcome follows that tick as P[...]
@@ -36,6 +42,9 @@ package main
 
 import (
 	"bytes"
+	"os"
+	"os/exec"
+	"sync/atomic"
 	"context"
 	"encoding/binary"
 	"errors"
@@ -1706,14 +1715,131 @@ func u64(s string) uint64 {
 	return v
 }
 
+// ---------- head events racing with resolveDuties (child process) ----------
+
+const (
+	headraceEpochs = 16 // the unfixed code dies in the first one or two; a surviving run costs about 1.5 s
+	headraceSpe    = 4
+)
+
+// headraceChild runs in the child process. Nothing is compared: every interleaving of the head events with the
+// resolution is acceptable (each head event starts an early fetch or does not); what must not happen is that the
+// process dies.
+func headraceChild(nval, k int) {
+	ctx := context.Background()
+	hx.Must(log.InitLogger(log.Config{Level: "error", Format: "console", Color: "disable"}))
+	hx.Must(featureset.Init(ctx, featureset.Config{MinStatus: "stable", Enabled: []string{string(featureset.FetchAttOnBlock)}}))
+	m, err := beaconmock.New(ctx, beaconmock.WithGenesisTime(genesis), beaconmock.WithSlotDuration(time.Second), beaconmock.WithSlotsPerEpoch(headraceSpe))
+	hx.Must(err)
+	active, complete := eth2wrap.ActiveValidators{}, eth2wrap.CompleteValidators{}
+	for i := uint64(0); i < uint64(nval); i++ {
+		active[eth2p0.ValidatorIndex(i)] = pkBytes(i)
+		complete[eth2p0.ValidatorIndex(i)] = &eth2v1.Validator{Index: eth2p0.ValidatorIndex(i), Status: eth2v1.ValidatorStateActiveOngoing,
+			Validator: &eth2p0.Validator{PublicKey: pkBytes(i)}}
+	}
+	m.CachedValidatorsFunc = func(context.Context) (eth2wrap.ActiveValidators, eth2wrap.CompleteValidators, error) {
+		return active, complete, nil
+	}
+	var curEpoch atomic.Uint64
+	m.CachedAttesterDutiesFunc = func(_ context.Context, epoch eth2p0.Epoch, _ []eth2p0.ValidatorIndex) (eth2wrap.AttesterDutyWithMeta, error) {
+		out := make([]*eth2v1.AttesterDuty, 0, nval)
+		for i := uint64(0); i < uint64(nval); i++ { // every cluster validator attests in one of the epoch's slots
+			out = append(out, &eth2v1.AttesterDuty{PubKey: pkBytes(i), Slot: eth2p0.Slot(uint64(epoch)*headraceSpe + i%headraceSpe),
+				ValidatorIndex: eth2p0.ValidatorIndex(i), CommitteeLength: 1, CommitteesAtSlot: 1})
+		}
+		curEpoch.Store(uint64(epoch)) // the head events now aim at the slots whose definitions are about to be stored
+		return eth2wrap.AttesterDutyWithMeta{Duties: out}, nil
+	}
+	m.CachedProposerDutiesFunc = func(context.Context, eth2p0.Epoch, []eth2p0.ValidatorIndex) (eth2wrap.ProposerDutyWithMeta, error) {
+		return eth2wrap.ProposerDutyWithMeta{}, nil
+	}
+	m.CachedSyncCommDutiesFunc = func(context.Context, eth2p0.Epoch, []eth2p0.ValidatorIndex) (eth2wrap.SyncDutyWithMeta, error) {
+		return eth2wrap.SyncDutyWithMeta{}, nil
+	}
+	delay := func(core.Duty, time.Time) <-chan time.Time {
+		ch := make(chan time.Time, 1)
+		ch <- time.Time{}
+		return ch
+	}
+	// the attester trigger of the handled slot waits on this clock for good (never advanced); the context ends it
+	s, err := scheduler.NewVerif(clockwork.NewFakeClockAt(genesis), delay, nil, m, false)
+	hx.Must(err)
+	var fetches atomic.Int64
+	s.RegisterFetcherFetchOnly(func(context.Context, core.Duty, core.DutyDefinitionSet, string, eth2p0.Root) error {
+		fetches.Add(1)
+		return nil
+	})
+	stop := make(chan struct{})
+	for g := 0; g < k; g++ { // the SSE listener goroutines (one per beacon node)
+		go func(g int) {
+			for {
+				select {
+				case <-stop:
+					return
+				default:
+				}
+				e := curEpoch.Load()
+				for sl := e * headraceSpe; sl < (e+1)*headraceSpe; sl++ {
+					s.HandleHeadEvent(ctx, eth2p0.Slot(sl), eth2p0.Root{}, fmt.Sprintf("bn%d", g))
+				}
+			}
+		}(g)
+	}
+	sctx, cancel := context.WithCancel(ctx)
+	for e := uint64(1); e <= headraceEpochs; e++ { // the scheduler goroutine: first slot of each epoch
+		slot := core.Slot{Slot: e * headraceSpe, Time: genesis.Add(time.Duration(e*headraceSpe) * time.Second), SlotsPerEpoch: headraceSpe, SlotDuration: time.Second}
+		s.HandleSlotVerif(sctx, slot)
+	}
+	close(stop)
+	cancel()
+	fmt.Fprintf(os.Stderr, "headrace: %d epochs survived, %d early fetches\n", headraceEpochs, fetches.Load())
+}
+
+// doHeadrace runs the racing op in a child process and turns its death into a monitor violation.
+func doHeadrace(run *hx.Run, nval, k int) string {
+	exe, err := os.Executable()
+	hx.Must(err)
+	ctx, cancel := context.WithTimeout(context.Background(), 120*time.Second)
+	defer cancel()
+	cmd := exec.CommandContext(ctx, exe, "-mode", "headrace", "-n", strconv.Itoa(nval), "-seed", strconv.Itoa(k))
+	var stderr bytes.Buffer
+	cmd.Stderr = &stderr
+	err = cmd.Run()
+	run.Count("headrace")
+	if err == nil {
+		run.Count("headrace:survived")
+		return "ok"
+	}
+	msg := stderr.String()
+	head := msg
+	if len(head) > 1500 {
+		head = head[:1500]
+	}
+	head = strings.ReplaceAll(head, "\n", " | ")
+	if strings.Contains(msg, "concurrent map") {
+		run.Violate("sched:head_event_races_resolve_fatal", fmt.Sprintf("head events racing with resolveDuties (%d validators, %d head-event goroutines) killed the process: %s", nval, k, head))
+	} else {
+		run.Violate("sched:head_event_race_child_failed", fmt.Sprintf("child process of headrace %d %d failed (%v): %s", nval, k, err, head))
+	}
+	return "ok"
+}
+
 func main() {
 	a := hx.ParseArgs()
+	if a.Mode == "headrace" {
+		headraceChild(a.N, int(a.Seed))
+		return
+	}
 	hx.Must(log.InitLogger(log.Config{Level: "error", Format: "console", Color: "disable"}))
 	run := hx.NewRun(a.Dir)
 	defer run.Close()
 	var ep *episode
 	exec := func(op string) {
 		f := strings.Fields(op)
+		if f[0] == "headrace" { // self-contained: no episode needed, none touched
+			run.Op(op, doHeadrace(run, int(u64(f[1])), int(u64(f[2]))))
+			return
+		}
 		if f[0] != "cfg" && ep == nil {
 			panic("op before cfg: " + op)
 		}
@@ -1804,6 +1930,8 @@ func main() {
 		return
 	}
 	rng := hx.NewRng(a.Seed)
+	// once per run: head events racing with the resolution of an epoch (child process; see doHeadrace)
+	exec(fmt.Sprintf("headrace %d %d", 2000+500*rng.Intn(2), 3+rng.Intn(2)))
 	for run.NOps < a.N && !run.Enough() {
 		generateEpisode(rng, run, exec, func() *episode { return ep })
 	}
